@@ -41,14 +41,15 @@ COLON = ":"
 ALL = -1
 RAISED = -2  # recorded in place of a key when the call raised
 
-INVARIANTS = ("InvUniverse InvRoundTrip InvWhitespace InvRename InvAddAxes InvShape InvOutputKey InvInputKeys "
-              "InvRenameDenotes InvAddAxesDenotes Emit")
+INVARIANTS = ("InvUniverse InvRoundTrip InvWhitespace InvArrow InvRename InvAddAxes InvShape InvOutputKey InvInputKeys "
+              "InvRenameDenotes InvAddAxesDenotes InvHistory Emit")
 
 CFG = """SPECIFICATION Spec
 CONSTANTS Part = "{part}" Shard = {shard} NShards = {nshards}
           MaxIn = {MaxIn} SortFrom = {SortFrom} MaxDim = {MaxDim} BigIn = {BigIn} BigDim = {BigDim} MaxAxes = {MaxAxes} BigAxes = {BigAxes}
           LawDim = {LawDim} MutIn = {MutIn} MutRank = {MutRank}
           TokIn = {TokIn} TokRank = {TokRank} TokR = {TokR} TokMod = {TokMod}
+          HisIn = {HisIn} HisRank = {HisRank} HisR = {HisR} HisLen = {HisLen} HisMod = {HisMod}
 INVARIANT {invs}
 """
 
@@ -56,14 +57,16 @@ INVARIANT {invs}
 TIERS: dict[str, dict[str, Any]] = {
     "quick": {
         "const": {"MaxIn": 3, "SortFrom": 2, "MaxDim": 3, "BigIn": 3, "BigDim": 3, "MaxAxes": 5, "BigAxes": 3, "LawDim": 2,
-                  "MutIn": 2, "MutRank": 2, "TokIn": 2, "TokRank": 2, "TokR": 2, "TokMod": 16},
-        "shards": {"sem": 10, "syn": 3, "bad": 2, "tok": 1},
+                  "MutIn": 2, "MutRank": 2, "TokIn": 2, "TokRank": 2, "TokR": 2, "TokMod": 16,
+                  "HisIn": 2, "HisRank": 2, "HisR": 2, "HisLen": 3, "HisMod": 7},
+        "shards": {"sem": 10, "syn": 7, "bad": 2, "tok": 1, "his": 4},
         "n_rec": 400,
     },
     "thorough": {
         "const": {"MaxIn": 3, "SortFrom": 3, "MaxDim": 4, "BigIn": 3, "BigDim": 3, "MaxAxes": 6, "BigAxes": 6, "LawDim": 3,
-                  "MutIn": 2, "MutRank": 3, "TokIn": 2, "TokRank": 2, "TokR": 3, "TokMod": 2},
-        "shards": {"sem": 40, "syn": 8, "bad": 8, "tok": 8},
+                  "MutIn": 2, "MutRank": 3, "TokIn": 2, "TokRank": 2, "TokR": 3, "TokMod": 2,
+                  "HisIn": 2, "HisRank": 2, "HisR": 3, "HisLen": 3, "HisMod": 1},
+        "shards": {"sem": 40, "syn": 8, "bad": 8, "tok": 8, "his": 16},
         "n_rec": 20000,
     },
 }
@@ -287,6 +290,18 @@ def cmp_syn(c: dict, o: dict, seed: int, res: Result) -> None:
                  "scoped": f["scoped"]},
                 f"from_string({text!r}) -> {ast_str(decode(back)) if how == 'value' else how}, expected {ast_str(ast)}", c, o,
                 text=text, ws=mode)
+    # the arrow count: every arrow mutant of str(m) must be rejected, without whitespace and with whitespace everywhere
+    for a in o["arrows"]:
+        for mode in ("canonical", "single", "blank", "newline_outside"):
+            rng = random.Random(f"{seed}|{res.key}|{a['t']}|{mode}")
+            text = render(a["toks"], "canonical", rng) if mode == "canonical" else render(a["gaps"], mode, rng)
+            how, back = _from_string(text)
+            res.calls += 1
+            if how == "value":
+                res.bad({"check": "reject_malformed", "fn": "MapSpec.from_string", "rules": "arrow_count", "arrows": a["arrows"],
+                         "mut": a["t"], "got": "accepted"},
+                        f"text with {a['arrows']} arrows ({a['t']}) accepted: {text!r} -> {ast_str(decode(back))}", c, o, text=text)
+                break
     # rename
     for q, r in enumerate(o["ren"]):
         how, got = call(ms.rename, {old: new for old, new in r["r"]})
@@ -342,7 +357,12 @@ def cmp_tok(c: dict, o: dict, seed: int, res: Result) -> None:
     res.key = f"tok|{text}"
     how, back = _from_string(text)
     res.calls += 1
-    if o["ok"] and not o["why"] and o["regular"]:          # a sentence with a well-formed regular AST: exact
+    if o["must_reject"]:                                    # arrow count != 1: no leniency
+        if how == "value":
+            res.bad({"check": "reject_malformed", "fn": "MapSpec.from_string", "rules": "arrow_count", "arrows": o["arrows"],
+                     "mut": c["mut"], "got": "accepted"},
+                    f"text with {o['arrows']} arrows accepted: {text!r} -> {ast_str(decode(back))}", c, o, text=text)
+    elif o["ok"] and not o["why"] and o["regular"]:        # a sentence with a well-formed regular AST: exact
         if how != "value" or decode(back) != o["ms"]:
             res.bad({"check": "parse_tokens", "fn": "MapSpec.from_string", "mut": c["mut"], "got": how if how != "value" else "wrong_ast"},
                     f"from_string({text!r}) -> {ast_str(decode(back)) if how == 'value' else how}, expected {ast_str(o['ms'])}", c, o, text=text)
@@ -354,7 +374,120 @@ def cmp_tok(c: dict, o: dict, seed: int, res: Result) -> None:
         res.open.append({"src": {"kind": "tok", "mut": c["mut"], "sentence": o["ok"]}, "text": text, "ms": decode(back)})
 
 
-COMPARATORS = {"sem": cmp_sem, "syn": cmp_syn, "bad": cmp_bad, "tok": cmp_tok}
+def _observe(ms, obj: dict, parts: tuple[str, ...]) -> tuple[str, str, str] | None:
+    """Compare what the real object `ms` answers with the exported observation of `obj`; the first difference as
+    (method, got, detail) or None.  parts: 'ast' (fields, str), 'attr' (derived attributes), 'keys' (shape + all keys)."""
+    ast, obs = obj["m"], obj["obs"]
+    if "ast" in parts:
+        how, got = call(decode, ms)
+        if how != "value" or got != ast:
+            return "fields", how if how != "value" else "wrong_ast", f"object is {ast_str(got) if how == 'value' else how}, expected {ast_str(ast)}"
+        want = "".join(obs["toks"])
+        how, got = call(str, ms)
+        if how != "value" or got != want:
+            return "__str__", how if how != "value" else "wrong_value", f"str() = {got!r}, expected {want!r}"
+    if "attr" in parts:
+        for attr, want, conv in (("input_names", obs["in_names"], list), ("output_names", obs["out_names"], list),
+                                 ("output_indices", obs["out_idx"], list), ("external_indices", obs["ext_idx"], list),
+                                 ("input_indices", sorted(obs["in_idx"]), sorted)):
+            how, got = call(lambda: conv(getattr(ms, attr)))
+            if how != "value" or got != list(want):
+                return attr, how if how != "value" else "wrong_value", f"{attr} = {got}, expected {list(want)} for {ast_str(ast)}"
+    if "keys" in parts:
+        sh = obs["shape"]
+        in_names = [a["name"] for a in ast["ins"]]
+        input_shapes = {n: tuple(s) for n, s in zip(in_names, obj["insh"])}
+        internal = {a["name"]: tuple(obj["internal"]) for a in ast["outs"]} if obj["internal"] else None
+        want = (tuple(sh["shape"]), tuple(sh["mask"]))
+        how, got = call(ms.shape, input_shapes, internal)
+        if how != "value" or got != want:
+            return "shape", how if how != "value" else "wrong_value", f"shape({input_shapes}, {internal}) = {got}, expected {want} for {ast_str(ast)}"
+        ext = tuple(obs["ext"])
+        for l in range(obs["n"]):
+            how, k = call(ms.output_key, ext, l)
+            want_k = tuple(obs["okeys"][l])
+            if how != "value" or k != want_k:
+                return "output_key", how if how != "value" else "wrong_value", f"output_key({ext}, {l}) = {k}, expected {want_k} for {ast_str(ast)}"
+            how, ik = call(ms.input_keys, ext, l)
+            want_ik = {n: _key_py(key) for n, key in zip(in_names, obs["ikeys"][l])}
+            if how != "value" or ik != want_ik:
+                return "input_keys", how if how != "value" else "wrong_value", f"input_keys({ext}, {l}) = {ik}, expected {want_ik} for {ast_str(ast)}"
+    return None
+
+
+def _op_str(op: dict) -> str:
+    if op["t"] == "add":
+        return f"add_axes({', '.join(op['axs'])})"
+    if op["t"] == "ren":
+        return f"rename({ {a: b for a, b in op['pairs']} })"
+    return {"attr": "read attributes", "keys": "shape + all keys", "reparse": "from_string(str(.))"}[op["t"]]
+
+
+def cmp_his(c: dict, o: dict, seed: int, res: Result) -> None:
+    """Mechanism B: realise one history on real objects.  The operations are applied one after the other to the
+    current (last derived) object; at the end EVERY object of the history is observed completely."""
+    from pipefunc.map import MapSpec
+
+    objs, ops = o["objs"], c["ops"]
+    res.key = f"his|{ast_str(objs[0]['m'])}|{'; '.join(_op_str(op) for op in ops)}"
+    res.nontrivial = any(op["t"] in ("add", "ren", "reparse") for op in ops) and any(op["t"] in ("attr", "keys") for op in ops)
+    how, ms = call(build, objs[0]["m"])
+    if how != "value":
+        res.bad({"check": "construct", "fn": "MapSpec.__init__", "got": how}, f"well-formed {ast_str(objs[0]['m'])} refused: {ms}", c, o)
+        return
+    real = [ms]
+    made_by = ["construct"]      # how object k came about
+    used_before = [False]        # had an ancestor of object k been used (attr / keys) before k was derived from it
+    used = False
+
+    def bad(k: int, when: str, diff: tuple[str, str, str]) -> None:
+        meth, got, detail = diff
+        res.bad({"check": "history", "fn": f"MapSpec.{meth}", "made_by": made_by[k], "used_before_derive": used_before[k],
+                 "when": when, "got": got},
+                f"after [{'; '.join(_op_str(op) for op in ops)}] on {ast_str(objs[0]['m'])}: object {k} ({made_by[k]}): {detail}",
+                c, o, obj=k)
+
+    for op in ops:
+        cur = real[-1]
+        k = len(real) - 1
+        res.calls += 1
+        if op["t"] in ("attr", "keys"):
+            used = True
+            diff = _observe(cur, objs[k], (op["t"],))
+            if diff:
+                bad(k, "on_the_way", diff)
+                return
+            continue
+        if op["t"] == "add":
+            how, new = call(cur.add_axes, *op["axs"])
+        elif op["t"] == "ren":
+            how, new = call(cur.rename, {a: b for a, b in op["pairs"]})
+        else:
+            how, new = call(lambda: MapSpec.from_string(str(cur)))
+        if how != "value":
+            res.bad({"check": "history", "fn": {"add": "MapSpec.add_axes", "ren": "MapSpec.rename", "reparse": "MapSpec.from_string"}[op["t"]],
+                     "made_by": op["t"], "used_before_derive": used, "when": "derive", "got": how},
+                    f"after [{'; '.join(_op_str(x) for x in ops)}] on {ast_str(objs[0]['m'])}: {_op_str(op)} raised {how}: {new}", c, o)
+            return
+        real.append(new)
+        made_by.append(op["t"])
+        used_before.append(used)
+    if len(real) != len(objs):
+        raise MachineryError(f"history {res.key}: {len(real)} real objects, {len(objs)} exported")
+    for k, ms_k in enumerate(real):        # every object, the earlier ones too: deriving from an object leaves it as it was
+        diff = _observe(ms_k, objs[k], ("ast", "attr", "keys"))
+        res.calls += 1
+        if diff:
+            bad(k, "final", diff)
+            return
+        for j in range(k):                 # equality is equality of the values
+            if (real[j] == ms_k) != (objs[j]["m"] == objs[k]["m"]):
+                bad(k, "final", ("__eq__", "wrong_value", f"object {j} == object {k} is {real[j] == ms_k}, the ASTs are "
+                                 f"{ast_str(objs[j]['m'])} and {ast_str(objs[k]['m'])}"))
+                return
+
+
+COMPARATORS = {"sem": cmp_sem, "syn": cmp_syn, "bad": cmp_bad, "tok": cmp_tok, "his": cmp_his}
 
 
 def compare_case(rec: dict, seed: int) -> Result:
@@ -648,6 +781,21 @@ def selftest_comparator(ctx: Ctx, lines: list[str]) -> None:
     corrupt("expected-value corruption: a well-formed sentence declared malformed",
             lambda r: r["c"]["kind"] == "tok" and r["o"]["ok"] and not r["o"]["why"] and r["o"]["regular"],
             lambda r: r["o"].update(why=["unused_input_index"]), "reject_malformed")
+    def e_arrow(r: dict) -> None:      # the well-formed sentence itself declared "arrow count wrong"
+        r["o"]["arrows"][0].update(toks=[t for t in r["o"]["toks"] if t != WS], gaps=r["o"]["gaps"])
+
+    def e_his(r: dict) -> None:        # one input key of the LAST object of a history, last linear index
+        obs = r["o"]["objs"][-1]["obs"]
+        obs["ikeys"][obs["n"] - 1][0][0] = 7
+
+    corrupt("expected-value corruption: a well-formed text listed among the arrow-count mutants",
+            lambda r: r["c"]["kind"] == "syn", e_arrow, "reject_malformed")
+    corrupt("expected-value corruption: one input key of the last object of a history",
+            lambda r: r["c"]["kind"] == "his" and len(r["o"]["objs"]) >= 2 and r["o"]["objs"][-1]["m"]["ins"]
+            and r["o"]["objs"][-1]["obs"]["n"] >= 1, e_his, "history")
+    corrupt("expected-value corruption: external_indices of the first object of a history",
+            lambda r: r["c"]["kind"] == "his" and len(r["o"]["objs"]) >= 2 and r["o"]["objs"][0]["obs"]["ext_idx"],
+            lambda r: r["o"]["objs"][0]["obs"]["ext_idx"].pop(), "history")
     if not ran:
         raise MachineryError("binding self-test: no expected-value corruption could be demonstrated")
 
@@ -679,8 +827,11 @@ def run(ctx: Ctx) -> None:
     ctx.rule = ("case = one element of a universe defined in MC_MapSpecSem.tla: sem = (MapSpec structure, index sizes, ':' sizes"
                 " [, one mutated shape]) with ALL linear indices compared; syn = MapSpec under 3 naming schemes x 1-2 outputs with 7"
                 " whitespace renderings, 4-6 renames, 7 add_axes calls; bad = AST mutant per documented rejection; tok = token-sequence"
-                " mutant; rec = seeded random larger spec judged by TLC.  non-trivial: sem = shape error, or >= 2 linear indices and"
-                " (external rank >= 2 or a ':' axis or an internal axis); syn = at least one input; bad/tok/rec = all")
+                " mutant; his = history of <= HisLen operations (read attributes / shape + all keys / from_string(str) / add_axes /"
+                " rename, in every order) on one object and the objects derived from it, every object observed completely at the"
+                " end; syn also: 7+ arrow-count mutants of str(m) x 4 whitespace renderings; rec = seeded random larger spec judged"
+                " by TLC.  non-trivial: sem = shape error, or >= 2 linear indices and (external rank >= 2 or a ':' axis or an"
+                " internal axis); syn = at least one input; his = a use and a derivation; bad/tok/rec = all")
     ctx.assumptions = [
         "TLC and the JSON encoding of ASTs/shapes/keys are trusted; Python renders tokens to text, builds objects and compares",
         "lexical classes (identifier / scope.identifier) are Python's str.isidentifier; the model's lexicon is checked against it",
@@ -688,7 +839,9 @@ def run(ctx: Ctx) -> None:
         "shape mismatches are generated by mutating ONE input shape (or the internal sizes) of the sizes-1,2,3 assignment, not by"
         " enumerating all shape tuples",
         "don't-care (MapSpecSem.Regular): duplicate array names, an index repeated inside one array, arrays without axes",
-        "token sequences outside the grammar and irregular specs: only 'rejected, or accepted as a well-formed MapSpec' (TLC part acc)",
+        "token sequences outside the grammar and irregular specs: only 'rejected, or accepted as a well-formed MapSpec' (TLC part acc);"
+        " except an arrow count other than one (MapSpecSem.TextMustReject): must be rejected",
+        "histories: base structures <= HisIn inputs of rank <= HisRank, consistent shapes with index sizes 2, 3, 4; at most two added axes",
         "zero-size axes, missing/extra input names and non-integer internal shapes are outside the property",
     ]
     t0 = time.time()
@@ -779,11 +932,11 @@ def run(ctx: Ctx) -> None:
 
     ctx.extra["violation_counts"] = {k: v for k, v in sorted(counts.items())}
     ctx.exhaustive = True   # every exported case of the TLA+-defined universes was compared (part rec is sampled)
-    for kind in ("sem", "syn", "bad", "tok"):
+    for kind in ("sem", "syn", "bad", "tok", "his"):
         for ln in lines:
             if f'\\"kind\\":\\"{kind}\\"' in ln:
                 rec = parse_case_line(ln)
-                ctx.sample({"case": rec["c"], "expected": {k: v for k, v in rec["o"].items() if k not in ("okeys", "ikeys", "gaps", "ren", "add")}},
+                ctx.sample({"case": rec["c"], "expected": {k: v for k, v in rec["o"].items() if k not in ("okeys", "ikeys", "gaps", "ren", "add", "arrows", "objs")}},
                            limit=4)
                 break
 
